@@ -1,0 +1,16 @@
+//go:build verif
+
+package keystore
+
+import "sync/atomic"
+
+// Counters for the verification harness (build tag verif): attempts at the
+// keystore signing entry points, and signatures about to be produced with a
+// usable private key in hand.
+var verifAttempts, verifProduced atomic.Int64
+
+func verifSignAttempt()  { verifAttempts.Add(1) }
+func verifSignProduced() { verifProduced.Add(1) }
+
+// VerifSignCounters returns (attempts, produced).
+func VerifSignCounters() (int64, int64) { return verifAttempts.Load(), verifProduced.Load() }
